@@ -24,49 +24,49 @@ CLAIMED = {
          "length guards, parity-steered concatenation order, per-level shift, position < 2^len(path) before a true result, callers pass the position field their coinbase rule uses",
          "functional equivalence with Bitcoin's Merkle tree on all inputs"),
  "C05": ("enum typestate dataflow over Withdrawal.Status in every production function + pairing path searches + must-pass term facts",
-         "the status transition relation the code can perform equals the allowed one (paid/canceled terminal, never rewritten); each terminal write is paired with exactly one queue notice of the same id; every term check precedes the record write in Process/Replace; Finalize needs txid membership, voted header hash, SPV and reports the matched output; every non-failing iteration of the Process/Replace loops records the output value for its withdrawal; the change-output check uses the system-address recipe the address builder uses (C17/R1)",
+         "the status transition relation the code can perform equals the allowed one (paid/canceled terminal, never rewritten); each terminal write is paired with exactly one queue notice of the same id; every term check precedes the record write in Process/Replace; Finalize needs txid membership, voted header hash, SPV and reports the matched output; every non-failing iteration of the Process/Replace loops records the output value for its withdrawal; the change-output check uses the system-address recipe the address builder uses (C17/R1); the voted MsgNewPubkey handler stores the voted key as the current relayer key on every success path and nothing else writes it at run time",
          "behaviour over interleavings as such, float rounding of the fee-rate comparison, id reuse by the execution layer"),
  "C20": ("must-pass relational guard facts on the stored SSA value for every runtime store to the three bounded parameters + who-may-write",
          "every runtime store to DepositTaxRate/MinDepositAmount/ConfirmationNumber is dominated by the bound on the very value stored (rate < 10000, amount > 1000, number >= 1); no other runtime writer; tax divisor equals the rate bound and division comes first; every parameter store fed from a request element is reached under the same request-dependent guards as the other stores fed from that element (an out-of-range request is ignored as a whole)",
          "the arithmetic consequence for every 64-bit value; genesis configuration"),
  "C06": ("call-graph who-may-call + SSA nonce/queue pop-shape analysis (value graph of the nonce, counter identity of index and re-slice) + must-pass facts",
-         "the dequeue functions are reachable only via Dequeue/VerifyDequeue (tx context: NewEthBlock only); every emitted system tx is paired with nonce+1 and the stored nonce is Peek + emits; lists are consumed F[n] for n=0.. under len/cap bounds and re-sliced by the same n; queue and nonce are stored on every success path that emitted; block hashes are stored at tip+1.. with start == tip+1 and have no other writer; VerifyDequeue byte-compares the two dequeued lists in order and requires the declared count to reach zero, and in NewEthBlock it precedes the processing of the payload's own requests; other queue writers only append at the tail; the sweep of matured unlocks collects every entry it visits, in walk order (C15/R2); a claim queues exactly what the record holds and clears it before the next request (C12/R3)",
+         "the dequeue functions are reachable only via Dequeue/VerifyDequeue (tx context: NewEthBlock only); every emitted system tx is paired with nonce+1 and the stored nonce is Peek + emits; lists are consumed F[n] for n=0.. under len/cap bounds and re-sliced by the same n; queue and nonce are stored on every success path that emitted; block hashes are stored at tip+1.. with start == tip+1 and have no other writer; VerifyDequeue byte-compares the two dequeued lists in order and requires the declared count to reach zero, and in NewEthBlock it precedes the processing of the payload's own requests; other queue writers only append at the tail; the sweep of matured unlocks collects every entry it visits, in walk order (C15/R2); a claim queues exactly what the record holds and clears it before the next request (C12/R3); a withdrawal id enters the paid / rejected queue once (C05/R2)",
          "behaviour across abandoned proposal rounds and restarts (SDK state branching), numeric adequacy of the caps"),
  "C07": ("call-graph reachability to nondeterminism sources with a positive control + map-range loop-body effect analysis + process-local-state rules",
          "no time/rand/env/goroutine/channel/select reachable from tx, block-hook, ante or genesis code; every map range there is order-insensitive (no store access at all in gas-metered context; key-derived writes and order-free result in block context); no package-level or keeper-reachable mutable state; only exact IEEE float operations",
          "determinism of dependencies, restart equivalence of the store"),
  "C08": ("must-pass facts in ProcessProposal/PrepareProposal closures + sibling obligation comparison (proposal check vs execution) + inter-procedural read/write effect sets of errgroup closures + call-graph who-may-write of begin blockers against the collections read by the proposal-time checks",
-         "ProcessProposal skeleton (1..16 txs, per-tx verification, first tx = single MsgNewEthBlock verified, none later, ACCEPT after the list); Prepare stops at the same cap; verifyEthBlockProposal and NewEthBlock agree on the structural checks (proposer, fee recipient, parent hash, number+1, 32-byte block hash, beacon root, system txs, requests) and createEthBlockProposal sources the same state; engine error/non-VALID rejects; no memory written by one errgroup closure is accessed by its sibling; every mempool tx entering the prepared proposal passes a size guard (including the block tx) against RequestPrepareProposal.MaxTxBytes; no begin-of-block code writes a collection that the proposal-time dequeue / head checks read (so the accepted proposal is finalised on the state it was built on); the cap constant is the 16 of the property",
+         "ProcessProposal skeleton (1..16 txs, per-tx verification, first tx = single MsgNewEthBlock verified, none later, ACCEPT after the list); Prepare stops at the same cap; verifyEthBlockProposal and NewEthBlock agree on the structural checks (proposer, fee recipient, parent hash, number+1, 32-byte block hash, beacon root, system txs, requests) and createEthBlockProposal sources the same state; engine error/non-VALID rejects; no memory written by one errgroup closure is accessed by its sibling; every mempool tx entering the prepared proposal passes a size guard (including the block tx) against RequestPrepareProposal.MaxTxBytes; no begin-of-block code writes a collection that the proposal-time dequeue / head checks read (so the accepted proposal is finalised on the state it was built on); the cap constant is the 16 of the property; from every errgroup Go no path reaches a success exit or a read of a variable the goroutine writes without passing the group's Wait",
          "that honest proposals are always accepted (clocks, engine behaviour), races inside the SDK/mempool"),
  "C09": ("who-may-write + must-pass facts dominating the head writes + value provenance of the engine call arguments + typed AST of the app config",
          "Block/BeaconRoot written only by NewEthBlock and genesis, after every structural guard (incl. a 32-byte block hash: the engine sees a cropped hash, the head records the raw bytes) and request processor; Finalized returns both engine errors, fails on INVALID from either call, sends the recorded head with safe = finalized = parent; goat EndBlock returns Finalized's error and the module is wired as end-blocker; engine RPC wrappers propagate errors",
          "retry-after-fault equivalence, what the engine does"),
  "C10": ("typed decorator-chain check + must-pass facts on every path to next() + per-mode admission path search + extraction of the name predicate and evaluation over every registered Msg type of the app's import closure",
-         "ante chain composition and installation; StdTx/memo/one-signer/timeout guards; in each of the five execution modes a message reaches next() only through relayerTxOnly (or the exact MsgNewEthBlock name with timeout == height in block modes); relayerTxOnly = namespace prefix + signer equals current relayer proposer; the predicate admits exactly the repository's bitcoin/relayer messages (administration messages found and rejected); admitted handlers bind the proposer before any write; only timeout < height counts as expired (a transaction whose timeout equals the block height — the block message — is not rejected by the expiry test)",
+         "ante chain composition and installation; StdTx/memo/one-signer/timeout guards; in each of the five execution modes a message reaches next() only through relayerTxOnly (or the exact MsgNewEthBlock name with timeout == height in block modes); relayerTxOnly = namespace prefix + signer equals current relayer proposer; the predicate admits exactly the repository's bitcoin/relayer messages (administration messages found and rejected); admitted handlers bind the proposer before any write; only timeout < height counts as expired (a transaction whose timeout equals the block height — the block message — is not rejected by the expiry test); the proposal check hands every tx to ProcessProposalVerifyTx before it accepts (C08/R1)",
          "signature/sequence decorator internals (SDK)"),
  "C11": ("who-may-write on holdings/Slashed + canonical-expression pairing of the amounts taken and credited (SSA value provenance) + loop must-execute",
-         "holdings are written only by lock/unlock/slash; unlock queues and subtracts the same value, which is min(requested, held); lock adds exactly the aggregated request; each slash credits Slashed[denom] with previous + exactly what leaves the holding (all of it when the truncated fraction is zero), for every coin, with the right fraction per offence; a validator record built from scratch is stored only under a key found absent; both slash fractions are validated into [0, 1)",
+         "holdings are written only by lock/unlock/slash; unlock queues and subtracts the same value, which is min(requested, held); lock adds exactly the aggregated request; each slash credits Slashed[denom] with previous + exactly what leaves the holding (all of it when the truncated fraction is zero), for every coin, with the right fraction per offence; a validator record built from scratch is stored only under a key found absent; both slash fractions are validated into [0, 1); the locking hand-over consumes exactly the unlocks it emitted (C06/R2)",
          "the global conservation identity over histories, non-negativity for all amounts"),
  "C12": ("canonical-expression pairing of pool/remainder/share values + resolved rounding-mode of every LegacyDec operation on the share path + who-may-write",
-         "the block reward moved into distribution equals what leaves the grant and is min(remaining, halved reward); each share is floor(pool x previous-block power / total) with round-down operations only, the same value is credited to the validator and subtracted from the remainder that is stored back; claim queues the accrued amounts read before the reset and stores record and queue",
+         "the block reward moved into distribution equals what leaves the grant and is min(remaining, halved reward); each share is floor(pool x previous-block power / total) with round-down operations only, the same value is credited to the validator and subtracted from the remainder that is stored back; claim queues the accrued amounts read before the reset and stores record and queue; the locking BeginBlock hook reaches DistributeReward on every success path; a success path of UpdateRewardPool goes round the move into the distribution pool only when the amount to move is zero",
          "the emission numbers, proportionality beyond rounding direction, non-negativity over histories"),
  "C13": ("validator-status typestate (current and as-loaded) at every ranking/locking-index effect site + path searches for remove-before-change + positive-power guard facts",
-         "ranking inserts use the record's current power, only for Pending/Active records and only under power > 0; power changes and status writes leaving {Pending,Active} of possibly-ranked records are preceded by removal of the loaded ranking entry; a removed ranking entry is re-inserted on every path on which the record stays Pending/Active with possibly positive power; the locking index is written only for Pending/Active records and fully cleared when a record leaves them; EndBlocker reports the loaded record's power, mirrors it in ValidatorSet and bounds the walk by MaxValidators; every explicit failure exit of the begin blocker's reward distribution is reached only with a non-empty last commit (a chain started from an exported state has a first block without one); every validator update reported to the consensus engine is paired with the matching ValidatorSet.Set / Remove (directly or in a helper that always makes the call); every write of the power ranking in production code is one of the examined sites, in a function holding the validator record, and every removed key is Join(record.Power, address) of such a record",
-         "top-K optimality over histories, ties, total-power overflow, store errors"),
+         "ranking inserts use the record's current power, only for Pending/Active records and only under power > 0; power changes and status writes leaving {Pending,Active} of possibly-ranked records are preceded by removal of the loaded ranking entry; a removed ranking entry is re-inserted on every path on which the record stays Pending/Active with possibly positive power; the locking index is written only for Pending/Active records and fully cleared when a record leaves them; EndBlocker reports the loaded record's power, mirrors it in ValidatorSet and bounds the walk by MaxValidators; every explicit failure exit of the begin blocker's reward distribution is reached only with a non-empty last commit (a chain started from an exported state has a first block without one); every validator update reported to the consensus engine is paired with the matching ValidatorSet.Set / Remove (directly or in a helper that always makes the call); every write of the power ranking in production code is one of the examined sites, in a function holding the validator record, and every removed key is Join(record.Power, address) of such a record; a power converted to int64 for the consensus engine has an upper bound established at the conversion or where the power is increased (today it has not: known finding D18)",
+         "top-K optimality over histories, ties, the total-power bound as a number (only that some bound exists), store errors"),
  "C14": ("enum typestate over Validator.Status in every locking function + must-pass guard facts at transitions",
-         "the status transition relation equals the allowed one (nothing leaves Tombstoned; Inactive only to Tombstoned); unjail only after the jail time with all thresholds met; jail only under the missed-blocks guard on the stored counter (incremented or not by this block, never a value that may come from the window reset) with power 0, jail time and downtime slash; only Active validators are counted; the signing window is reset on (re)activation or jail; evidence is ignored only when both age limits are exceeded, and evidence of any kind older than both is ignored (the accused validator is loaded only past a not-older edge); locks never touch dead validators; unexpired evidence always ends in the Tombstoned write unless the record was Tombstoned when loaded",
+         "the status transition relation equals the allowed one (nothing leaves Tombstoned; Inactive only to Tombstoned); unjail only after the jail time with all thresholds met; jail only under the missed-blocks guard on the stored counter (incremented or not by this block, never a value that may come from the window reset) with power 0, jail time and downtime slash; only Active validators are counted; the signing window is reset on (re)activation or jail; evidence is ignored only when both age limits are exceeded, and evidence of any kind older than both is ignored (the accused validator is loaded only past a not-older edge); locks never touch dead validators; unexpired evidence always ends in the Tombstoned write unless the record was Tombstoned when loaded; wherever the window offset restarts at 0 the missed counter restarts too; the locking BeginBlock hook reaches HandleVoteInfos and HandleEvidences on every success path; every piece of double-sign / light-client-attack evidence of a block is handed to handleEvidence",
          "window arithmetic across boundaries, exactly-once over time beyond the typestate argument"),
  "C15": ("phi-edge provenance of the maturity key + typestate/effect-site checks on the exiting branch + rendered-value checks of the sweep + interleaving search over read-modify-write pairs (through helpers)",
-         "maturity = block time + exit delay exactly when status is Inactive/Tombstoned or the remainder falls below the threshold, else + unlock delay; the entry written is the stored entry for that instant extended by this unlock; exiting zeroes power, moves to Inactive, clears the locking index and never re-ranks; the sweep covers (-inf, block time], removes every visited key, appends every visited unlock once in order and stores the queue; no two read-modify-write sequences on one keeper map with different key expressions are interleaved (lost update); the end blocker evicts every member of the last set that is not re-elected, whatever its status (C13/R4)",
+         "maturity = block time + exit delay exactly when status is Inactive/Tombstoned or the remainder falls below the threshold, else + unlock delay; the entry written is the stored entry for that instant extended by this unlock; exiting zeroes power, moves to Inactive, clears the locking index and never re-ranks; the sweep covers (-inf, block time], removes every visited key, appends every visited unlock once in order and stores the queue; no two read-modify-write sequences on one keeper map with different key expressions are interleaved (lost update); the end blocker evicts every member of the last set that is not re-elected, whatever its status (C13/R4); the locking EndBlock hook reaches the sweep on every success path",
          "time arithmetic, delivery caps over histories"),
  "C16": ("must-pass proof facts before any write in NewVoter + voter-status typestate with queue pairing + relational guard on the remaining-member count + election path searches",
-         "a voter joins only after both proofs over the same registration sign doc bound to chain/epoch/proposer, with matching key hash and PENDING status; status transitions are the allowed ones and each boarding write is paired with one queue append; a removal is queued only if the remaining count stays >= 1; an election is skipped only within the period with an accepted proposer / no or unexpired timeout, and started only when the period elapsed or a configured timeout expired unaccepted; every election path increments the epoch once, stores the relayer, and replaces/swaps the proposer with a voter that leaves the voter list; applied queues are cleared and stored; a voter record is created only when its address is absent and after a branch on a lookup that receives the new vote key and reads the voter records, comparing records of every status (distinct members); the new record carries the height of its registration (NewVoter's proofs are bound to it); genesis import refuses a proposer that is also listed among the voters; wherever the module chooses between a voter's VoteKey field and its SHA-256, the raw field is taken only under status Pending and the hash only otherwise; a proposer that acts is marked accepted on every success exit of VerifyProposal / VerifyNonProposal",
+         "a voter joins only after both proofs over the same registration sign doc bound to chain/epoch/proposer, with matching key hash and PENDING status; status transitions are the allowed ones and each boarding write is paired with one queue append; a removal is queued only if the remaining count stays >= 1; an election is skipped only within the period with an accepted proposer / no or unexpired timeout, and started only when the period elapsed or a configured timeout expired unaccepted; every election path increments the epoch once, stores the relayer, and replaces/swaps the proposer with a voter that leaves the voter list; applied queues are cleared and stored; a voter record is created only when its address is absent and after a branch on a lookup that receives the new vote key and reads the voter records, comparing records of every status (distinct members); the new record carries the height of its registration (NewVoter's proofs are bound to it); genesis import refuses a proposer that is also listed among the voters; wherever the module chooses between a voter's VoteKey field and its SHA-256, the raw field is taken only under status Pending and the hash only otherwise; a proposer that acts is marked accepted on every success exit of VerifyProposal / VerifyNonProposal; the relayer EndBlock hook runs the end blocker; a record stored with a possibly new proposer carries ProposerAccepted = false; after a voter record is retired no success exit is reached without the proposer having been compared with the retired addresses",
          "election timing over block-time histories, randomness quality"),
  "C17": ("sibling recipe extraction (canonical SSA expressions of builder vs verifier) + literal/guard facts + key-type matrix facts",
-         "for each key type and version the address builder and the script verifier derive the witness program / data script by the same recipe over the same argument roles; verifier literals match the address kind; v1 is ECDSA-only on both sides and deposit verification does not delegate to a helper with a different key matrix; the query dispatches versions like verification; DecodeBtcAddress passes network, IsForNet, p2pk rejection and PayToAddrScript; the relayer's own address check (change / consolidation outputs) tests length, version opcode and push opcode per key type",
+         "for each key type and version the address builder and the script verifier derive the witness program / data script by the same recipe over the same argument roles; verifier literals match the address kind; v1 is ECDSA-only on both sides and deposit verification does not delegate to a helper with a different key matrix; the query dispatches versions like verification; DecodeBtcAddress passes network, IsForNet, p2pk rejection and PayToAddrScript; the relayer's own address check (change / consolidation outputs) tests length, version opcode and push opcode per key type; no process-local state in the keepers the address query reads (C07/R3)",
          "equivalence with btcd on all strings (library behaviour)"),
  "C18": ("coverage analysis of keeper collections and GenesisState fields over Init/ExportGenesis (types + store call sites) + guard facts on derived-index rebuilds + abstract evaluation (known shapes, integer intervals) of import-side validators against runtime record writers + per-status path search to import panics",
-         "every collection is exported and imported or is a derived index rebuilt on import; every GenesisState field is assigned on export and consumed on import; derived indices obey the runtime guards (ranked states, positive power, Active-only validator set, queue by voter status); the exported validator set is the recorded ValidatorSet with the validators' keys; every record the running chain builds with statically known field shapes passes the Validate method run on import; no named status value leads to a status-decided panic in code run on import; for every record the chain modifies field by field at run time, Validate (and the helpers it hands the record to) has no failure branch on a modified integer field that a storable value satisfies (interval evaluation against the guards dominating the stores); voter records are created only with an unused vote key (import refuses duplicates); the begin blocker cannot fail on the first block after import (no last commit); the order of the (not exported) voter queue is not copied into the persistent voter list of the group unless canonically ordered first; the exported block-hash window starts at the tip, descends by one and its loop bound does not exclude height 0; indices rebuilt by the locking genesis obey C13/R1,R3",
+         "every collection is exported and imported or is a derived index rebuilt on import; every GenesisState field is assigned on export and consumed on import; derived indices obey the runtime guards (ranked states, positive power, Active-only validator set, queue by voter status); the exported validator set is the recorded ValidatorSet with the validators' keys; every record the running chain builds with statically known field shapes passes the Validate method run on import; no named status value leads to a status-decided panic in code run on import; for every record the chain modifies field by field at run time, Validate (and the helpers it hands the record to) has no failure branch on a modified integer field that a storable value satisfies (interval evaluation against the guards dominating the stores); voter records are created only with an unused vote key (import refuses duplicates); the begin blocker cannot fail on the first block after import (no last commit); the order of the (not exported) voter queue is not copied into the persistent voter list of the group unless canonically ordered first; the exported block-hash window starts at the tip, descends by one and its loop bound does not exclude height 0; indices rebuilt by the locking genesis obey C13/R1,R3; the rebuilt voter queues hold every imported voter whose status says so",
          "equality of two exports, query equivalence (runtime)"),
  "C19": ("reachability from errgroup closures and block hooks + must-pass nil/length guard facts + reviewed table of explicit block-hook failures tied to the C13/C16 invariants + SSA referrer analysis of every error result (errcheck-like, exact exemption table) + failure-branch path search for state writes",
          "outside the framework's panic recovery: the payload nil guard precedes both verification goroutines, every index/slice of proposed data in VerifyDequeue is dominated by its length guard, no unchecked type assertion, explicit panic or dereference of a possibly-nil local pointer is reachable from a goroutine; nothing reachable from the ante handler writes a store (its writes would survive a failing message); the explicit failure exits of begin/end-of-block code are exactly the reviewed ones and the invariants excluding them hold (incl. the zero-power exit needing a non-empty last commit); no process-local state survives a failed tx; no error result is discarded in hand-written production code and no tested state-write failure reaches a success exit; no pointer dereference and no panic(err) on a path where a dominating branch established that the value is nil; every Params field consensus code divides by is validated positive; a store read whose error is tested lets the err != nil branch reach a success exit only over an errors.Is(err, …) edge",
